@@ -11,6 +11,7 @@ import (
 	"sort"
 	"strings"
 	"sync"
+	"syscall"
 	"time"
 
 	"github.com/goreleaser/nfpm/v2"
@@ -42,9 +43,12 @@ func GenC07(verifSeed uint64, run int) *Scenario {
 			e.History = g.Intn(4)
 			e.Neighbour = g.Bool(0.3)
 			e.Relocate = g.Bool(0.3)
+			e.Umask = Pick(g, []int{0, 0, 0o022, 0o077, 0o007, 0o777})
+			e.EnvNoise = g.Intn(4)
 		}
 		if i == nEnv-1 {
 			e.Child = true
+			e.Hostname = Pick(g, []string{"", "other-build-host", "ci-runner-7.example.org"})
 		}
 		plan.Envs = append(plan.Envs, e)
 		avoid = append(avoid, FakeEpoch.Unix()+e.ClockOffsetS)
@@ -108,6 +112,12 @@ func (rt *Runtime) buildUnder(w *World, cfg string, format string, e *Env07) c07
 		out.err = err
 		return out
 	}
+	if e.Umask != 0 {
+		old := syscall.Umask(e.Umask)
+		defer syscall.Umask(old)
+	}
+	restoreEnv := setEnvNoise(e.EnvNoise)
+	defer restoreEnv()
 	for i := 0; i < e.History; i++ {
 		warmBuild(i)
 	}
@@ -131,6 +141,37 @@ func (rt *Runtime) buildUnder(w *World, cfg string, format string, e *Env07) c07
 		}
 	})
 	return out
+}
+
+// envNoise: ambient variables that have nothing to do with packaging.
+var envNoise = [][][2]string{
+	{},
+	{{"HOME", "/home/alice"}, {"USER", "alice"}, {"LOGNAME", "alice"}, {"LANG", "de_DE.UTF-8"}, {"LC_ALL", "de_DE.UTF-8"}, {"TMPDIR", "/dev/shm"}},
+	{{"HOME", "/root"}, {"USER", "root"}, {"LANG", "C"}, {"TMPDIR", "/tmp"}, {"HOSTNAME", "env-host"}},
+	{{"HOME", "/nonexistent"}, {"USER", "builder"}, {"LANG", "tr_TR.UTF-8"}, {"GOFLAGS", ""}, {"XDG_CONFIG_HOME", "/tmp/xdg"}},
+}
+
+func setEnvNoise(n int) func() {
+	set := envNoise[n%len(envNoise)]
+	type old struct {
+		k, v string
+		had  bool
+	}
+	var olds []old
+	for _, kv := range set {
+		v, had := os.LookupEnv(kv[0])
+		olds = append(olds, old{kv[0], v, had})
+		os.Setenv(kv[0], kv[1])
+	}
+	return func() {
+		for _, o := range olds {
+			if o.had {
+				os.Setenv(o.k, o.v)
+			} else {
+				os.Unsetenv(o.k)
+			}
+		}
+	}
 }
 
 // buildChild runs the built CLI in a child process with its own TZ,
@@ -157,9 +198,22 @@ func (rt *Runtime) buildChild(w *World, format string, e *Env07, tag string) c07
 	}
 	defer os.Remove(cfgPath)
 	defer os.Remove(target)
-	cmd := exec.Command(cli, "package", "-f", cfgPath, "-p", format, "-t", target)
+	// the child gets its own umask and, when possible, its own host name
+	// (private UTS namespace)
+	script := fmt.Sprintf("umask %04o; exec \"$0\" \"$@\"", e.Umask)
+	args := []string{"-c", script, cli, "package", "-f", cfgPath, "-p", format, "-t", target}
+	cmd := exec.Command("/bin/sh", args...)
+	if e.Hostname != "" {
+		if _, err := exec.LookPath("unshare"); err == nil {
+			script = fmt.Sprintf("hostname %s 2>/dev/null; umask %04o; exec \"$0\" \"$@\"", e.Hostname, e.Umask)
+			cmd = exec.Command("unshare", append([]string{"--uts", "/bin/sh", "-c", script}, args[2:]...)...)
+		}
+	}
 	cmd.Dir = cwd
-	env := []string{"PATH=/usr/bin:/bin", "HOME=/nonexistent", fmt.Sprintf("GOMAXPROCS=%d", e.GoMaxProcs)}
+	env := []string{"PATH=/usr/bin:/bin:/usr/sbin:/sbin", "HOME=/nonexistent", fmt.Sprintf("GOMAXPROCS=%d", e.GoMaxProcs)}
+	for _, kv := range envNoise[e.EnvNoise%len(envNoise)] {
+		env = append(env, kv[0]+"="+kv[1])
+	}
 	// Go resolves TZ as a zoneinfo name (not a POSIX rule string)
 	zones := []string{"UTC", "Asia/Kolkata", "America/New_York", "Pacific/Kiritimati", "Europe/Berlin", "Australia/Lord_Howe"}
 	env = append(env, "TZ="+zones[abs(e.TZOffsetMin/15)%len(zones)])
@@ -418,6 +472,12 @@ func (rt *Runtime) c07Culprit(w *World, f string, base, e *Env07, baseBytes []by
 	h = *base
 	h.Relocate = e.Relocate
 	try("source-location", h)
+	h = *base
+	h.Umask = e.Umask
+	try("process-umask", h)
+	h = *base
+	h.EnvNoise = e.EnvNoise
+	try("ambient-environment", h)
 	// plain repetition
 	b := rt.buildUnder(w, "", f, base)
 	res.Counters["builds"]++
